@@ -20,6 +20,7 @@ define_language! {
         Var(Slot) = "var",
         K3(AppliedId, AppliedId, AppliedId) = "k",
         W(Slot, AppliedId) = "w",
+        Case(AppliedId, Bind<AppliedId>, Bind<AppliedId>) = "case",
     }
 }
 
@@ -39,6 +40,7 @@ pub const SYM_SIG: Sig = &[
     ("var", "s"),
     ("k", "ccc"),
     ("w", "sc"),
+    ("case", "cbb"),
 ];
 
 /// how harness names become slots
@@ -155,6 +157,14 @@ pub fn mk_node(t: &T, nm: Naming, kids: &mut dyn FnMut() -> AppliedId) -> Sym {
             let r = kids();
             let b = kids();
             Sym::Sum(r, Bind { slot: s(xs[0]), elem: Bind { slot: s(xs[1]), elem: b } })
+        }
+        "case" => {
+            let Arg::Bind(xs, _) = &t.args[1] else { panic!() };
+            let Arg::Bind(ys, _) = &t.args[2] else { panic!() };
+            let sc = kids();
+            let l = kids();
+            let r = kids();
+            Sym::Case(sc, Bind { slot: s(xs[0]), elem: l }, Bind { slot: s(ys[0]), elem: r })
         }
         o => panic!("unknown op {o}"),
     }
